@@ -808,6 +808,82 @@ func quietScenario(sc scen) []finding {
 	return out
 }
 
+// stagePool makes the timer pool of this process hold n idle workers (n callbacks were due together).
+func stagePool(n int) bool {
+	var wg sync.WaitGroup
+	gate := make(chan struct{})
+	for i := 0; i < n; i++ {
+		wg.Add(1)
+		timeout.Call(func() { <-gate; wg.Done() }, time.Millisecond)
+	}
+	t0 := time.Now()
+	for {
+		if w, p := timeout.VerifState(); p == 0 && w >= n {
+			break
+		}
+		if time.Since(t0) > 20*time.Second {
+			close(gate)
+			return false
+		}
+		time.Sleep(time.Millisecond)
+	}
+	close(gate)
+	wg.Wait()
+	return true
+}
+
+// relockScenario (S9, a process of its own with a staged pool): the storage answers every renewal d after it
+// applied it. The holder unlocks while a renewal is on its way back, the answer arrives (it re-arms a left-over
+// timer of the old tenure, which the statement tolerates), and the same Locker is locked again shortly after: the
+// left-over attempt of the old tenure is at the storage when the first renewal of the new tenure is due. The new
+// tenure is held 4 L under the tenure monitors.
+func relockScenario(sc scen) []finding {
+	if !stagePool(sc.K) {
+		return nil
+	}
+	e := newEnv()
+	L, d := sc.L, sc.SlowAfter
+	tH, pH := e.provider(L)
+	_, pC := e.provider(L)
+	defer pH.Shutdown()
+	defer pC.Shutdown()
+	tH.slowAfter = d
+	h, c := pH.NewLocker("x"), pC.NewLocker("x")
+	h.Lock()
+	applied := func() bool { // the first renewal has been executed by the storage (its answer is on the way)
+		tH.mu.Lock()
+		defer tH.mu.Unlock()
+		return tH.casN >= 1
+	}
+	t0 := time.Now()
+	for !applied() {
+		if time.Since(t0) > L+10*time.Second {
+			h.Unlock()
+			return []finding{{sig: "harness/S9-renewal-did-not-come", what: "the first renewal did not reach the storage", timeBound: true, w: sc}}
+		}
+		time.Sleep(200 * time.Microsecond)
+	}
+	time.Sleep(d / 3)
+	h.Unlock()
+	for { // the answer of that renewal is back (logged)
+		done := false
+		for _, ev := range tH.events() {
+			if ev.Op == "Cas" {
+				done = true
+			}
+		}
+		if done || time.Since(t0) > L+20*time.Second {
+			break
+		}
+		time.Sleep(200 * time.Microsecond)
+	}
+	time.Sleep(sc.Phase)
+	h.Lock()
+	out := guardTenure(e, sc, tH, c, 4*L, "relock-after-slow-renewal-answer")
+	h.Unlock()
+	return out
+}
+
 func TestChild(t *testing.T) {
 	idx, total, part, ok := shard.Child()
 	if !ok {
@@ -818,6 +894,9 @@ func TestChild(t *testing.T) {
 	if part == "slow" {
 		list = slowList()
 	}
+	if part == "relock" {
+		list = relockList()
+	}
 	for i := idx; i < len(list); i += total {
 		sc := list[i]
 		for attempt := 1; ; attempt++ {
@@ -825,6 +904,8 @@ func TestChild(t *testing.T) {
 			var fs []finding
 			if sc.Kind == "S7" {
 				fs = quietScenario(sc)
+			} else if sc.Kind == "S9" {
+				fs = relockScenario(sc)
 			} else {
 				fs = runScenario(sc)
 			}
@@ -871,6 +952,17 @@ func slowList() []scen {
 	return list
 }
 
+func relockList() []scen {
+	var list []scen
+	for _, L := range []time.Duration{400 * time.Millisecond, 600 * time.Millisecond} {
+		d := 3 * L / 20
+		for _, ph := range []time.Duration{d / 3, d / 8, 2 * d / 3} {
+			list = append(list, scen{Kind: "S9", L: L, K: 3, SlowAfter: d, Phase: ph})
+		}
+	}
+	return list
+}
+
 func quietList() []scen {
 	var list []scen
 	for _, L := range []time.Duration{200 * time.Millisecond, 400 * time.Millisecond} {
@@ -884,7 +976,7 @@ func quietList() []scen {
 func TestCheck(t *testing.T) {
 	run := report.New("C05", "fault_enumeration")
 	defer run.Finish(t)
-	run.Rule("real-clock scenarios with lease L set through a hook, one storage tap per provider: S1 hold for 6 L (20 L thorough) with a TryLock-spinning and a parked contender, the holder acquiring through Lock, through LockWithCtx or through TryLock with a context that is cancelled right after the acquisition (the tap refuses calls whose context is done, as a network backend does); S6 a renewal answered with an error while the holder is unlocking, then another caller holds; S2 the k-th renewal CAS answered by an injected error without executing, for every k<=K, and sets of several failing calls in one tenure ({1,3,5}, {2,4,6}, {1,3,5,7}, {1,2}, {3,4}); during S1/S2 goroutines of the holder's process keep trying TryLock / LockWithCtx on the SAME (held) Locker object; S3 the holder's storage access dies at a phase of the renewal cycle and a parked contender must take over after the last lease ran out; S5 the answer of the k-th renewal is still in flight (applied by the storage) when the holder unlocks and the same Locker locks again, then the late answer arrives (variants: same Locker locks again / another provider's Locker holds next): the new tenure is held 3 L under the monitors; the order invariant of the timer queue (hook) is sampled throughout; S8 (one child process each) every renewal is slow but well inside half a lease (request slow L/6, answer slow 0.3 L, both L/8; a caller whose context ends meanwhile gets the context's error), hold 5 L; S2 also with the holder's provider shut down right after the acquisition (the holder holds on); S7 (one child process each, nothing else uses the timer pool): the pool already has 2/3/5 idle workers when the lock is taken, hold 4 L; S4 Unlock after hold times around multiples of L/2 with renewals delayed 0-5 ms (Unlock racing a renewal), then nothing / re-acquisition by the same / another Locker. In S1-S3 the caller that takes over after waiting holds for 3 L under the same monitors (its first lease must be a full one). Monitors over the tap log and probes of the record: exclusion, lease gap (each renewal completes before the lease it renews runs out), record present while held, renewal chain survives a transient error, take-over never before and at most L+2 s after the last lease ran out, at most one failing stale renewal after Unlock. distinct = distinct (scenario kind, L, k / phase / re-acquisition) instances run")
+	run.Rule("real-clock scenarios with lease L set through a hook, one storage tap per provider: S1 hold for 6 L (20 L thorough) with a TryLock-spinning and a parked contender, the holder acquiring through Lock, through LockWithCtx or through TryLock with a context that is cancelled right after the acquisition (the tap refuses calls whose context is done, as a network backend does); S6 a renewal answered with an error while the holder is unlocking, then another caller holds; S2 the k-th renewal CAS answered by an injected error without executing, for every k<=K, and sets of several failing calls in one tenure ({1,3,5}, {2,4,6}, {1,3,5,7}, {1,2}, {3,4}, six, seven and eight non-consecutive failures up to the 14th call); during S1/S2 goroutines of the holder's process keep trying TryLock / LockWithCtx on the SAME (held) Locker object; S3 the holder's storage access dies at a phase of the renewal cycle and a parked contender must take over after the last lease ran out; S5 the answer of the k-th renewal is still in flight (applied by the storage) when the holder unlocks and the same Locker locks again, then the late answer arrives (variants: same Locker locks again / another provider's Locker holds next): the new tenure is held 3 L under the monitors; the order invariant of the timer queue (hook) is sampled throughout; S8 (one child process each) every renewal is slow but well inside half a lease (request slow L/6, answer slow 0.3 L, both L/8; a caller whose context ends meanwhile gets the context's error), hold 5 L; S2 also with the holder's provider shut down right after the acquisition (the holder holds on); S9 (child processes, pool staged to 3 idle workers) the storage answers renewals 0.15 L late, the holder unlocks while an answer is on its way, the answer arrives, the same Locker locks again shortly after and holds 4 L; S7 (one child process each, nothing else uses the timer pool): the pool already has 2/3/5 idle workers when the lock is taken, hold 4 L; S4 Unlock after hold times around multiples of L/2 with renewals delayed 0-5 ms (Unlock racing a renewal), then nothing / re-acquisition by the same / another Locker. In S1-S3 the caller that takes over after waiting holds for 3 L under the same monitors (its first lease must be a full one). Monitors over the tap log and probes of the record: exclusion, lease gap (each renewal completes before the lease it renews runs out), record present while held, renewal chain survives a transient error, take-over never before and at most L+2 s after the last lease ran out, at most one failing stale renewal after Unlock. distinct = distinct (scenario kind, L, k / phase / re-acquisition) instances run")
 	run.Assume("two-sided time bounds are guarded by a stall canary: a bound broken while the canary saw a stall above L/8 is repeated (up to 3 times) and only a repeat without stall counts")
 	run.Assume("a transient renewal failure is an attempt that was not applied (request lost); unacknowledged but applied renewals are not generated")
 
@@ -908,7 +1000,7 @@ func TestCheck(t *testing.T) {
 			list = append(list, scen{Kind: "S2", L: L, K: k})
 		}
 		// several transient failures within one tenure, each followed by a successful retry (and two in a row)
-		for _, ks := range [][]int{{1, 3, 5}, {2, 4, 6}, {1, 3, 5, 7}, {1, 2}, {3, 4}} {
+		for _, ks := range [][]int{{1, 3, 5}, {2, 4, 6}, {1, 3, 5, 7}, {1, 2}, {3, 4}, {1, 3, 5, 7, 9, 11}, {2, 4, 6, 8, 10, 12, 14}, {1, 2, 4, 5, 7, 8, 10, 11}} {
 			list = append(list, scen{Kind: "S2", L: L, K: ks[0], Ks: ks})
 		}
 		for i := 0; i < run.Pick(12, 24); i++ {
@@ -966,6 +1058,13 @@ func TestCheck(t *testing.T) {
 	go func() {
 		defer cwg.Done()
 		for c := range shard.Run(run, "TestChild", "slow", len(slowList()), 10*time.Minute) {
+			run.DistinctStr(c)
+		}
+	}()
+	cwg.Add(1)
+	go func() {
+		defer cwg.Done()
+		for c := range shard.Run(run, "TestChild", "relock", len(relockList()), 10*time.Minute) {
 			run.DistinctStr(c)
 		}
 	}()
